@@ -273,6 +273,58 @@ theorem code_start_failing_at (c : BridgeC) (h : Proofs.LifeC.CInv c) (p : Nat) 
     obtain ⟨ho, hr⟩ := code_failed_start c h hfail
     exact ⟨hfail, ho, hr⟩
 
+/-- … and nothing else changes either: for the abstract machine (what it listens on, the flag, what others hold) such a start is
+    invisible, apart from the error it raises -/
+theorem code_start_failing_at_abs (c : BridgeC) (h : Proofs.LifeC.CInv c) (p : Nat) (hp : p ∈ c.ports) :
+    (startFailingAt c p).1.abs = c.abs := by
+  obtain ⟨_, ho, hr⟩ := code_start_failing_at c h p hp
+  have hports : (startFailingAt c p).1.ports = c.ports ∧ (startFailingAt c p).1.others = c.others := by
+    unfold startFailingAt
+    by_cases hf : c.free p = true
+    · simp only [hf, if_true]
+      have hocc : bridgeStepC c (.occupy p) = ({ c with others := p :: c.others }, .ok) := by simp [bridgeStepC, hf]
+      rw [hocc]
+      simp only []
+      obtain ⟨_, _, hinv1⟩ := Proofs.LifeC.step_refines c (.occupy p) h (Proofs.LifeC.cinv_ports c h)
+      rw [hocc] at hinv1
+      have hs := (Proofs.LifeC.step_refines _ .start hinv1 (Proofs.LifeC.cinv_ports _ hinv1)).2.1
+      have hfailabs : (bridgeStep ({ c with others := p :: c.others } : BridgeC).abs .start).1 = ({ c with others := p :: c.others } : BridgeC).abs := by
+        have hall : (({ c with others := p :: c.others } : BridgeC).abs.ports.all (portFree ({ c with others := p :: c.others } : BridgeC).abs)) = false := by
+          apply Bool.eq_false_iff.mpr
+          intro hall
+          have := List.all_eq_true.mp hall p (by simpa [BridgeC.abs] using hp)
+          simp [portFree, BridgeC.abs] at this
+        simp [bridgeStep, hall]
+      rw [hfailabs] at hs
+      have hp1 : (bridgeStepC ({ c with others := p :: c.others } : BridgeC) .start).1.ports = c.ports := by
+        have := congrArg BridgeState.ports hs; simpa [BridgeC.abs] using this
+      have ho1 : (bridgeStepC ({ c with others := p :: c.others } : BridgeC) .start).1.others = p :: c.others := by
+        have := congrArg BridgeState.others hs; simpa [BridgeC.abs] using this
+      have hnotin : p ∉ c.others := by
+        simp [BridgeC.free] at hf; exact hf.1
+      refine ⟨by simp only [bridgeStepC]; exact hp1, ?_⟩
+      have hrel : ∀ d : BridgeC, (bridgeStepC d (.release p)).1.others = d.others.filter (· != p) := fun d => rfl
+      rw [hrel, ho1]
+      simp only [List.filter_cons, bne_self_eq_false, Bool.false_eq_true, if_false]
+      apply List.filter_eq_self.mpr
+      intro q hq
+      have : q ≠ p := fun e => hnotin (e ▸ hq)
+      simpa using this
+    · simp only [hf, Bool.false_eq_true, if_false]
+      have hs := (Proofs.LifeC.step_refines c .start h (Proofs.LifeC.cinv_ports c h)).2.1
+      have hnf : c.free p = false := by simpa using hf
+      have hall : c.abs.ports.all (portFree c.abs) = false := by
+        apply Bool.eq_false_iff.mpr
+        intro hall
+        have := List.all_eq_true.mp hall p (by simpa [BridgeC.abs] using hp)
+        have hfun : portFree c.abs p = c.free p := by simp [BridgeC.abs, BridgeC.free, portFree, BridgeC.openPorts]
+        rw [hfun, hnf] at this; cases this
+      have hfailabs : (bridgeStep c.abs .start).1 = c.abs := by simp [bridgeStep, hall]
+      rw [hfailabs] at hs
+      exact ⟨by have := congrArg BridgeState.ports hs; simpa [BridgeC.abs] using this,
+             by have := congrArg BridgeState.others hs; simpa [BridgeC.abs] using this⟩
+  simp only [BridgeC.abs, BridgeC.openPorts, ho, hr, hports.1, hports.2]
+
 /- the same with `except Exception:` in place of `except BaseException:` is the model without the rollback for a cancellation — see
    `startNoRollback` below: the ports bound before the failing one stay bound -/
 
